@@ -181,12 +181,16 @@ Fixpoint buffer_tag (sp : spec) (t : tag) (o : wopts) (st : wst) {struct t} : ws
   if should_validate && negb (w_validate sp id (w_open st)) then
     (st, WErr (EUnexpectedTag id (rev (open_ids (w_open st)))))
   else
+  (* children of a Full: a child may only end masters that were started inside of the Full ([floor] = number of
+     open masters right after the Full's own start) *)
   let children :=
-    fix children (cs : list tag) (st : wst) : wst * wres :=
+    fix children (floor : nat) (cs : list tag) (st : wst) : wst * wres :=
       match cs with
       | [] => (st, WOk)
       | c :: cs' => match buffer_tag sp c o_default st with
-                    | (st1, WOk) => children cs' st1
+                    | (st1, WOk) =>
+                        if (length (w_open st1) <? floor)%nat then (st1, WErr (EClose (tag_id c) None))
+                        else children floor cs' st1
                     | r => r
                     end
       end in
@@ -194,7 +198,7 @@ Fixpoint buffer_tag (sp : spec) (t : tag) (o : wopts) (st : wst) {struct t} : ws
     match t with
     | TStart _ => (start_unknown_size_tag st id, WOk)
     | TEnd _ => end_tag st id
-    | TFull _ cs => match children cs (start_unknown_size_tag st id) with
+    | TFull _ cs => match children (S (length (w_open st))) cs (start_unknown_size_tag st id) with
                     | (st1, WOk) => end_tag st1 id
                     | r => r
                     end
@@ -205,7 +209,7 @@ Fixpoint buffer_tag (sp : spec) (t : tag) (o : wopts) (st : wst) {struct t} : ws
     match ty, t with
     | Some DMaster, TStart _ => (start_tag st id size_len, WOk)
     | Some DMaster, TEnd _ => end_tag st id
-    | Some DMaster, TFull _ cs => match children cs (start_tag st id size_len) with
+    | Some DMaster, TFull _ cs => match children (S (length (w_open st))) cs (start_tag st id size_len) with
                                   | (st1, WOk) => end_tag st1 id
                                   | r => r
                                   end
